@@ -47,15 +47,14 @@ def _cap_memory():
     # a damaged file can make the loader ask for tens of GB (wrapped run counts): keep the machine alive.  Not for the ASan build,
     # which reserves terabytes of address space (it has soft_rss_limit_mb instead).
     import resource
-    resource.setrlimit(resource.RLIMIT_AS, (512 << 20, 512 << 20))
+    resource.setrlimit(resource.RLIMIT_AS, (2 << 30, 2 << 30))
 
 
 def run_tool(binary, args, cwd, env=None, timeout=60, flags=True):
     """returns (rc, output bytes); rc = 'timeout' on a hang"""
     try:
         p = subprocess.run([binary] + (FLAGS if flags else []) + list(args), cwd=cwd, stdout=subprocess.PIPE, stderr=subprocess.STDOUT,
-                           stdin=subprocess.DEVNULL, env=env, timeout=timeout,
-                           preexec_fn=None if 'asan' in os.path.basename(binary) else _cap_memory)
+                           stdin=subprocess.DEVNULL, env=env, timeout=timeout)
         return p.returncode, p.stdout
     except subprocess.TimeoutExpired as e:
         return 'timeout', (e.stdout or b'')
@@ -428,6 +427,8 @@ class Sweep:
 
 def _sweep_worker(job):
     root, k, binary, base, mutants, cmd, env, mode, timeout = job
+    if 'asan' not in os.path.basename(binary):
+        _cap_memory()       # inherited by the tool runs of this worker (no preexec_fn: keeps subprocess on the fast vfork path)
     wd = os.path.join(root, 'w%d' % k)
     cpath = os.path.join(wd, 'content')
     bad = []
